@@ -2,7 +2,8 @@ import Ufo2ftModel.Basic
 /-!
 Model of
 * `util.OpenTypeCategories.load`                                  (`loadCategories`)
-* `util.quantize`, `BaseFeatureWriter._getAnchor` (static branch)  (`quantize`, `getAnchor`)
+* `util.quantize`, `BaseFeatureWriter._getAnchor` (static branch: `quantize`, `getAnchor`, and with the anchor handed
+  over `caretValue`; variable branch + `collapse_varscalar` for the ligature carets: `varAnchor`, `collapseVar`)
 * `GdefFeatureWriter.setContext / _getLigatureCarets / _sortedGlyphClass / _write`
 * `CursFeatureWriter._getCursiveAnchorPairs / _makeCursiveFeature / _makeCursiveLookup /
    _getAnchors / _makeCursiveStatements`
@@ -105,9 +106,23 @@ structure ClassDef where
 def isCaretName (n : String) : Bool := n.startsWith "caret_"
 def isVCaretName (n : String) : Bool := n.startsWith "vcaret_"
 
-/-- the value one anchor of the loop in `_getLigatureCarets` adds to `glyphCarets`
+/-- the value one anchor of the loop in `_getLigatureCarets` adds to `glyphCarets`, static case:
+`self._getAnchor(glyphName, anchor.name, anchor=anchor)[0 or 1]` — with the anchor handed over, `_getAnchor`
+takes `anchor.x, anchor.y` of THAT anchor (no lookup by name) and quantises them
 (`anchor.x is not None` always holds for the UFO objects the harness builds) -/
-def caretValue (quant : Option Q) (g : GlyphIn) (a : Anchor) : Option Q :=
+def caretValue (quant : Option Q) (a : Anchor) : Option Q :=
+  match a.name with
+  | none => none
+  | some n =>
+    if n.isEmpty then none
+    else if isCaretName n then some (quantOpt quant a.x)
+    else if isVCaretName n then some (quantOpt quant a.y)
+    else none
+
+/-- the same step BEFORE the repair of `_getLigatureCarets` (`self._getAnchor(glyphName, anchor.name)`: the anchor
+was looked up again by name, which finds the FIRST anchor of that name).  Not part of `run`; kept for the
+labelled counterexample in `Props` and for classifying a recurrence. -/
+def caretValueOld (quant : Option Q) (g : GlyphIn) (a : Anchor) : Option Q :=
   match a.name with
   | none => none
   | some n =>
@@ -127,7 +142,11 @@ def addOpt [BEq α] (s : List α) (o : Option α) : List α :=
 
 /-- `glyphCarets = set(); ... .add(...)` -/
 def glyphCaretSet (quant : Option Q) (g : GlyphIn) : List Q :=
-  g.anchors.foldl (fun s a => addOpt s (caretValue quant g a)) []
+  g.anchors.foldl (fun s a => addOpt s (caretValue quant a)) []
+
+/-- `glyphCarets` of the code before the repair -/
+def glyphCaretSetOld (quant : Option Q) (g : GlyphIn) : List Q :=
+  g.anchors.foldl (fun s a => addOpt s (caretValueOld quant g a)) []
 
 /-- `[otRound(c) for c in sorted(glyphCarets)]` -/
 def glyphCarets (quant : Option Q) (g : GlyphIn) : List Int :=
@@ -305,6 +324,83 @@ structure Out where
 def run (i : Input) : Out :=
   { gdef := gdefWrite i.quant i.glyphs i.categories i.blocks,
     curs := cursFeature i.quant i.glyphs i.dir i.cursTodo }
+
+/-! ### ligature carets of a variable build (`context.isVariable`: `compileVariable*` with variable features)
+
+Here `_getAnchor` ignores the anchor handed over and looks the anchor NAME up in every source of the
+designspace (unchanged by the repair of the static case):
+`for source in designspace.sources: ... for anchor in glyph.anchors: if anchor.name == anchorName:
+ x_value.add_value(location, otRound(anchor.x)); y_value.add_value(...)` — `add_value` is a dict assignment per
+location, so of several anchors of that name in one source the LAST one stays; no quantisation.  Then
+`collapse_varscalar`: a plain number when all sources agree. -/
+
+/-- one glyph of a designspace build: its anchors in every source, in `designspace.sources` order.
+The writer iterates the anchors of the glyph in the compiler's glyph set = that of the default source, `dflt`. -/
+structure VarGlyph where
+  name : String
+  sources : List (List Anchor)
+  dflt : Nat
+  deriving Repr
+
+/-- the anchor whose coordinates end up in the VariableScalar for one source -/
+def lastNamed (al : List Anchor) (nm : String) : Option Anchor :=
+  (al.filter (fun a => a.name == some nm)).getLast?
+
+/-- `_getAnchor`, variable branch, before `collapse_varscalar`: per source the rounded coordinates (or nothing,
+when the source's glyph has no such anchor); `None` when no source has one -/
+def varAnchor (sources : List (List Anchor)) (nm : String) : Option (List (Option (Int × Int))) :=
+  let vs := sources.map (fun al => (lastNamed al nm).map (fun a => (otRound a.x, otRound a.y)))
+  if vs.any (·.isSome) then some vs else none
+
+/-- a caret of a variable build: a plain number or a VariableScalar (its value in each source, if any) -/
+inductive VCaret
+  | plain (n : Int)
+  | var (vals : List (Option Int))
+  deriving Repr, DecidableEq
+
+/-- `collapse_varscalar(v)` (threshold 0): the first value if no other value differs from it -/
+def collapseVar (vals : List (Option Int)) : VCaret :=
+  match vals.filterMap id with
+  | [] => .var vals
+  | v :: vs => if vs.all (· == v) then .plain v else .var vals
+
+/-- what one anchor of the default source's glyph adds to `glyphCarets` -/
+def caretValueVar (sources : List (List Anchor)) (a : Anchor) : Option VCaret :=
+  match a.name with
+  | none => none
+  | some n =>
+    if n.isEmpty then none
+    else if isCaretName n then (varAnchor sources n).map (fun vs => collapseVar (vs.map (·.map (·.1))))
+    else if isVCaretName n then (varAnchor sources n).map (fun vs => collapseVar (vs.map (·.map (·.2))))
+    else none
+
+/-- `glyphCarets.add(c)`: plain numbers are set elements by value, VariableScalar objects by identity -/
+def addVar (s : List VCaret) (c : VCaret) : List VCaret :=
+  match c with
+  | .plain _ => addSet s c
+  | .var _ => s ++ [c]
+
+/-- `caretSortKey`: the number itself, or the VariableScalar's first value -/
+def caretKey : VCaret → Int
+  | .plain n => n
+  | .var vals => (vals.filterMap id).headD 0
+
+def keyLe (a b : VCaret) : Bool := decide (caretKey a ≤ caretKey b)
+
+def glyphCaretSetVar (g : VarGlyph) : List VCaret :=
+  (g.sources.getD g.dflt []).foldl (fun s a => match caretValueVar g.sources a with
+    | none => s
+    | some c => addVar s c) []
+
+/-- `sorted(glyphCarets, key=caretSortKey)` (insertion order stands for the set's iteration order; ties are
+compared as multisets by the harness) -/
+def glyphCaretsVar (g : VarGlyph) : List VCaret := (glyphCaretSetVar g).mergeSort keyLe
+
+/-- the value of a caret at source `k` of `n`: a plain number holds everywhere -/
+def VCaret.at (c : VCaret) (k : Nat) : Option Int :=
+  match c with
+  | .plain v => some v
+  | .var vals => (vals[k]?).join
 
 /-! ### writer instances used for several fonts
 
